@@ -4,7 +4,8 @@
    statement: Registry/OpsetGen.v over Gen/OpsetMethods.v + Gen/OpsetSchemas.v. *)
 From Coq Require Import List String ZArith Bool.
 Import ListNotations.
-Require Import OV.Registry.OpsetMethod OV.Registry.OpsetMethodProofs OV.Registry.OpsetEmit OV.Registry.OpsetEmitProofs OV.Registry.OpsetGen.
+Require Import OV.Registry.OpsetMethod OV.Registry.OpsetMethodProofs OV.Registry.OpsetEmit OV.Registry.OpsetEmitProofs
+               OV.Registry.OpsetChain OV.Registry.OpsetChainProofs OV.Registry.OpsetGen.
 
 (* Opset._prepare_inputs removes trailing None and nothing else: the result is a prefix, what was cut off
    is None only, and the result has no trailing None left (for every list). *)
@@ -195,6 +196,64 @@ Theorem C17_checked_in_methods_are_generated : forall c, In c gen_classes -> for
                        s_name s' = s_name s /\ s_domain s' = s_domain s /\ s_since s' = s_since s.
 Proof. exact gen_methods_by_generator. Qed.
 Print Assumptions C17_checked_in_methods_are_generated.
+
+(* THE GENERATOR, WHOLE REGISTRIES (class skeleton and inheritance, Registry/OpsetChain.v): a class is
+   generated for every (domain, version) that has a schema the generator does not skip (`skip`: s_deprecated
+   as read, no_exemption repaired) and that is not excluded; it defines itself the operators whose
+   since_version is its version and derives from the class of the previous version of the domain.
+   For EVERY registry passing reg_wfb (per-method preconditions; (name, domain, since_version) identifies a
+   schema, i.e. the since_versions of an operator are pairwise different; versions >= 1; class names distinct;
+   no gap below a generated class) and every generated class (domain, N): looking Op up through the emitted
+   inheritance chain yields the method emitted from the schema get_schema(Op, N, domain) returns -- the
+   greatest since_version <= N (C17_get_schema_spec) --, that method names exactly this schema and mirrors it;
+   and there is no method where get_schema finds nothing.  Deprecation records included when skip = no_exemption. *)
+Theorem C17_emitted_chain_resolves : forall skip excl reg, reg_wfb skip excl reg = true ->
+  forall k, In k (class_keys skip excl reg) -> forall op,
+    match resolve reg op (snd k) (fst k) with
+    | Some s => skip s = false ->
+        static_lookup (emit_classes skip excl reg) (emit_class skip reg k) op = Some (emit_method s) /\
+        static_schema reg (emit_method s) = Some s /\ method_ok (emit_method s) s = true
+    | None => static_lookup (emit_classes skip excl reg) (emit_class skip reg k) op = None
+    end.
+Proof. exact emitted_chain_resolves. Qed.
+Print Assumptions C17_emitted_chain_resolves.
+
+(* ... hence what the generator emits passes the registry test, for every well-formed registry *)
+Theorem C17_emitted_registry_ok : forall skip excl reg, reg_wfb skip excl reg = true ->
+  registry_ok skip reg (emit_classes skip excl reg) = true.
+Proof. exact emitted_registry_ok. Qed.
+Print Assumptions C17_emitted_registry_ok.
+
+(* ... and no class is forgotten: every schema that is neither skipped nor excluded has the class of its
+   (domain, since_version), in which its method is defined *)
+Theorem C17_emitted_classes_complete : forall skip excl reg s,
+  In s reg -> skip s = false -> (1 <= s_since s)%Z -> key_mem (s_domain s, s_since s) excl = false ->
+  In (s_domain s, s_since s) (class_keys skip excl reg).
+Proof. exact class_keys_complete. Qed.
+Print Assumptions C17_emitted_classes_complete.
+
+(* The hypotheses are met by a registry in the shape of the real one, refused for the real reasons (a version
+   gap, two domains folding to one class name, an excluded version in the middle of a domain). *)
+Theorem C17_generator_wf_nonvacuous :
+  reg_wfb no_exemption [] ex_reg_full = true /\ reg_wfb s_deprecated [] ex_reg_full = true /\
+  reg_wfb no_exemption [] ex_reg = false /\
+  reg_wfb no_exemption [] [mkS "a.b" "X" 1 false [] []; mkS "a_b" "X" 1 false [] []] = false /\
+  reg_wfb no_exemption [("", 8%Z)] ex_reg_full = false.
+Proof.
+  exact (conj (proj1 (proj2 ex_reg_wf)) (conj (proj1 (proj2 (proj2 ex_reg_wf))) (conj (proj1 ex_reg_wf)
+        (conj (proj1 (proj2 ex_name_clash)) (proj1 ex_excluded_gap))))).
+Qed.
+Print Assumptions C17_generator_wf_nonvacuous.
+
+(* The 33-class instance as a corollary: the installed onnx.defs is a well-formed registry and the checked-in
+   classes (names, base classes, (domain, version), method lists; ast-extracted on every check) are the model
+   generator's output on it -- both decided by evaluation -- so C17_generated_classes_mirror_schemas above is
+   obtained from C17_emitted_registry_ok (OpsetGen.gen_registry_ok is proved by rewriting, not by evaluation). *)
+Theorem C17_checked_in_classes_are_generated :
+  reg_wfb gen_exempt gen_excluded gen_schemas = true /\
+  gen_classes = emit_classes gen_exempt gen_excluded gen_schemas.
+Proof. exact (conj gen_reg_wf gen_classes_are_emitted). Qed.
+Print Assumptions C17_checked_in_classes_are_generated.
 
 (* The test is not vacuous: a wrong default fails it and does change what the call means. *)
 Theorem C17_wrong_default_detected :
